@@ -47,3 +47,64 @@ Qed.
 
 (* Inv alone is not inductive (a state with one subset id used twice satisfies Inv's membership clauses but
    `remove_subset_group` deletes by identity); the strengthening `Core` rules such states out, and they are unreachable. *)
+
+(* ---------- the translated machine (coq/gen/Gen_groups.v) ---------- *)
+From GV Require Import gen.Gen_groups C06.GenEquiv1 C06.GenEquiv2 C06.GenEquiv C06.GenDelay1 C06.GenDelay2 C06.GenDelay.
+
+Definition gops1 : list bop :=
+  [BAppend 0; BNewGroup; BAppend 1; BRemove 0; BAppend 0; BNewGroup; BRemoveGroup 0; BExtend [2; 1]].
+Definition gheap1 : heap := fold_left bstep gops1 (ginit 3 7).
+
+(* a non-trivial heap meets the hypotheses of gen_inv_reachable's clauses: 3 datasets, 1 live group, re-appended dataset *)
+Example gheap1_nontrivial :
+  h_data gheap1 = [1; 0; 2] /\ h_groups gheap1 = [1] /\
+  h_dsubs gheap1 0 = [(4, 1)] /\ h_dsubs gheap1 1 = [(3, 1)] /\ h_gsubs gheap1 1 = [(3, 1); (4, 0); (5, 2)] /\
+  map fst (h_subs gheap1) = [1] /\ h_paused gheap1 = 0 /\ h_queue gheap1 = [].
+Proof. vm_compute. intuition. Qed.
+
+Example gheap1_inv : HInv gheap1.
+Proof. apply (gen_inv_reachable 3 7 gops1). Qed.
+
+(* gen_refines_model's hypotheses are met (the relation is inhabited beyond the initial state) *)
+Example gheap1_rel : exists st, Rel gheap1 st /\ Core st /\ coll st = [1; 0; 2].
+Proof.
+  destruct (gen_reachable_sim 3 7 gops1) as [st [HR [HC _]]]. exists st. split; [exact HR | split; [exact HC|]].
+  rewrite <- (f_equal coll (rel_abs _ _ HR)). reflexivity.
+Qed.
+
+(* the order of effects of one append, as the translated code emits them *)
+Example append_trace :
+  h_trace (bstep (hset_trace [] (fold_left bstep [BNewGroup] (ginit 2 7))) (BAppend 0)) =
+  [ERegisterData 0; EDeliver (DataCollectionAddMessage 0); EDeliver (SubsetCreateMessage (mkSub 0 0 0)); ESyncLinks].
+Proof. reflexivity. Qed.
+
+(* a block inside hub.delay_callbacks: the late DataCollectionAddMessage meets the guard of _add_data *)
+Example delayed_block :
+  let h := gstep (ginit 2 7) (GDelayed [BAppend 0; BNewGroup]) in
+  h_data h = [0] /\ h_groups h = [0] /\ h_dsubs h 0 = [(0, 0)] /\ h_gsubs h 0 = [(0, 0)] /\ h_paused h = 0 /\ h_queue h = [].
+Proof. vm_compute. intuition. Qed.
+
+(* the guard is not vacuous *)
+Example add_data_guard_fires :
+  In 0 (map snd (h_gsubs (fold_left bstep [BAppend 0; BNewGroup] (ginit 2 7)) 0)).
+Proof. vm_compute. left. reflexivity. Qed.
+
+(* the wire entry point of the translated machine *)
+Eval vm_compute in
+  (run_case (T 2 [T 2 []; T 7 []; T 0 [T 1 [T 0 []]; T 3 []; T 11 [T 2 [T 0 []]; T 1 [T 0 []]]]])).
+
+(* a history with blocks: a dataset removed and re-appended inside a block with a group created in between; a block that removes a group *)
+Definition gops2 : list gop :=
+  [GBasic (BAppend 0); GBasic BNewGroup; GDelayed [BRemove 0; BNewGroup; BAppend 0; BAppend 1]; GDelayed [BRemoveGroup 0; BRemove 1; BAppend 1]].
+Definition gheap2 : heap := fold_left gstep gops2 (ginit 2 7).
+Example gheap2_nontrivial :
+  h_data gheap2 = [0; 1] /\ h_groups gheap2 = [1] /\ length (h_dsubs gheap2 0) = 1%nat /\ length (h_dsubs gheap2 1) = 1%nat /\
+  length (h_gsubs gheap2 1) = 2%nat /\ h_paused gheap2 = 0 /\ h_queue gheap2 = [].
+Proof. vm_compute. intuition. Qed.
+Example gheap2_inv : HInv gheap2.
+Proof. apply (gen_inv_delayed 2 7 gops2). Qed.
+(* inside the block the in-block invariant is inhabited with a non-empty queue *)
+Example in_block_queue :
+  h_queue (fold_left bstep [BRemove 0; BNewGroup; BAppend 0] (hub_pause (fold_left gstep [GBasic (BAppend 0); GBasic BNewGroup] (ginit 2 7))))
+  <> [].
+Proof. vm_compute. discriminate. Qed.
